@@ -341,8 +341,30 @@ func (x *tr) coerce(n ast.Node, e ex, to *ty) ex {
 	return e
 }
 
+// string literals become named constants (`def s_… : Str := "…".toList`, emitted in front of the functions): `simp` does
+// not look inside a constant, while a literal under `.toList` sends it into the representation of `String`
+var litNames = map[string]string{}
+var litOrder = []string{}
+
 func strLean(s string) string {
-	return strconv.Quote(s) + ".toList"
+	if n, ok := litNames[s]; ok {
+		return n
+	}
+	var b strings.Builder
+	b.WriteString("s_")
+	if s == "" {
+		b.WriteString("empty")
+	}
+	for _, c := range []byte(s) {
+		if (c >= 'a' && c <= 'z') || (c >= 'A' && c <= 'Z') || (c >= '0' && c <= '9') {
+			b.WriteByte(c)
+		} else {
+			fmt.Fprintf(&b, "_%02x", c)
+		}
+	}
+	litNames[s] = b.String()
+	litOrder = append(litOrder, s)
+	return b.String()
 }
 
 func (x *tr) lenOf(n ast.Node, a ex) ex {
@@ -554,9 +576,9 @@ func (x *tr) binary(v *ast.BinaryExpr) ex {
 			}
 			return ex{"(" + a.s + " " + op + " " + b.s + ")", T("Bool"), a.partial}
 		}
-		f := "andM"
+		f := "goAnd"
 		if v.Op == token.LOR {
-			f = "orM"
+			f = "goOr"
 		}
 		return ex{"(← " + f + " (do pure " + a.s + ") (fun _ => do pure " + b.s + "))", T("Bool"), true}
 	}
@@ -1226,7 +1248,7 @@ func (x *tr) forStmt(ind int, s *ast.ForStmt) {
 				x.bad(s, "loop bound")
 			}
 			ln := x.declare(el, T("Int"))
-			x.emit(ind, "for "+ln+"_n in [("+lit.Value+" : Nat) : ("+bound.s+").toNat] do")
+			x.emit(ind, "for "+ln+"_n in List.range' "+lit.Value+" (("+bound.s+").toNat - "+lit.Value+") do")
 			x.emit(ind+1, "let "+ln+" : Int := "+ln+"_n")
 			c := x.expr(s.Cond)
 			x.emit(ind+1, "if !"+c.s+" then break")
@@ -1618,6 +1640,11 @@ func main() {
 		sigOut[n] = failed[n]
 	}
 	var b strings.Builder
+	sort.Strings(litOrder)
+	for _, l := range litOrder {
+		fmt.Fprintf(&b, "def %s : Str := %s.toList\n", litNames[l], strconv.Quote(l))
+	}
+	b.WriteString("\n")
 	for _, n := range order {
 		if t, ok := texts[n]; ok {
 			b.WriteString(t)
